@@ -715,11 +715,12 @@ class BlobStorageMixin:
         with self._lock:
             self.fshelper.getPathForOID(oid, create=True)
             targetname = self.fshelper.getBlobFilename(oid, serial)
-            rename_or_copy_blob(blobfilename, targetname)
-
+            # Record the file before it exists, so that an abort removes
+            # it even if moving it into place fails half way.
             # if oid already in there, something is really hosed.
             # The underlying storage should have complained anyway
             self.dirty_oids.append((oid, serial))
+            rename_or_copy_blob(blobfilename, targetname)
 
     def storeBlob(self, oid, oldserial, data, blobfilename, version,
                   transaction):
@@ -890,10 +891,10 @@ class BlobStorage(BlobStorageMixin):
                     data, serial_before, serial_after = load_result
                     orig_fn = self.fshelper.getBlobFilename(oid, serial_before)
                     new_fn = self.fshelper.getBlobFilename(oid, undo_serial)
+                self.dirty_oids.append((oid, undo_serial))
                 with open(orig_fn, "rb") as orig:
                     with open(new_fn, "wb") as new:
                         utils.cp(orig, new)
-                self.dirty_oids.append((oid, undo_serial))
 
         return undo_serial, keys
 
